@@ -202,6 +202,14 @@ def holds [LT α] (r : Result) (stored exact : Ext α) : Prop :=
   | .pinf => (r.unrep = false → stored = Ext.pinf) ∧ relHolds r.rel exact Ext.pinf
   | .normal => r.unrep = false ∧ (∃ s, stored = Ext.fin s) ∧ relHolds r.rel exact stored
 
+/-- **Meaning of a result code for a floating-point destination**: as `holds`, except that in the
+normal class the stored value may be an infinity of the format (`x + y` overflowing upwards under
+ROUND_UP stores `+∞` with `V_LT`: "the exact result is below `+∞`"); it may not be NaN. -/
+def holdsF [LT α] (r : Result) (stored exact : Ext α) : Prop :=
+  match r.cls with
+  | .normal => r.unrep = false ∧ stored ≠ Ext.nan ∧ relHolds r.rel exact stored
+  | _ => holds r stored exact
+
 /-- `V_OVERFLOW` and the infinity classes with a strict relation claim that the exact
 result lies outside the finite range `[lo, hi]` of the destination. -/
 def overflowHolds [LT α] (r : Result) (lo hi : α) (exact : Ext α) : Prop :=
